@@ -414,6 +414,66 @@ pub fn run(seed: u64, n_trees: u64, n_rust: u64, corruptions_per_doc: usize) -> 
         }
     }
     stats.insert("out_of_range_documents".into(), json!(out_of_range));
+    // "nested arbitrarily": a number wrapped D times in one-element lists (TOML: one-entry maps) comes back unchanged
+    let mut deep = 0u64;
+    for depth in [8usize, 32, 64, 100, 120, 126, 127, 128, 129, 160, 200, 300] {
+        for (name, module) in &modules {
+            let toml = *name == "toml";
+            let mut value = KValue::Number(7.into());
+            if toml {
+                let m = KMap::new();
+                m.insert("k", value);
+                value = KValue::Map(m);
+            }
+            for _ in 0..depth {
+                value = if toml {
+                    let m = KMap::new();
+                    m.insert("k", value);
+                    KValue::Map(m)
+                } else {
+                    KValue::Tuple(vec![value].into())
+                };
+            }
+            deep += 1;
+            evaluations += 1;
+            let text = match call(&mut koto, module, "to_string", value.clone()) {
+                Err(p) => {
+                    if !panics::is_excluded(&p) {
+                        fault_count += 1;
+                        add(&mut faults, json!({"rule": "panic", "format": name, "detail": p.signature, "value": format!("nesting depth {depth}")}));
+                    }
+                    continue;
+                }
+                Ok(Err(e)) => {
+                    fault_count += 1;
+                    add(&mut faults, json!({"rule": "deep-nesting", "format": name, "depth": depth, "detail": format!("to_string: {}", e.lines().next().unwrap_or(""))}));
+                    continue;
+                }
+                Ok(Ok(KValue::Str(s))) => s.as_str().to_string(),
+                Ok(Ok(_)) => continue,
+            };
+            match call(&mut koto, module, "from_string", KValue::Str(text.as_str().into())) {
+                Err(p) => {
+                    if !panics::is_excluded(&p) {
+                        fault_count += 1;
+                        add(&mut faults, json!({"rule": "panic", "format": name, "detail": p.signature, "text": format!("nesting depth {depth}")}));
+                    }
+                }
+                Ok(Err(e)) => {
+                    fault_count += 1;
+                    add(&mut faults, json!({"rule": "deep-nesting", "format": name, "depth": depth, "detail": format!("from_string: {}", e.lines().next().unwrap_or(""))}));
+                }
+                Ok(Ok(back)) => {
+                    let mut path = String::new();
+                    if !same(&value, &back, &mut path) {
+                        fault_count += 1;
+                        add(&mut faults, json!({"rule": "deep-nesting", "format": name, "depth": depth, "detail": format!("round trip differs at {}", path.chars().take(60).collect::<String>())}));
+                    }
+                }
+            }
+        }
+    }
+    stats.insert("deep_nesting_documents".into(), json!(deep));
     // Rust data -> Koto value -> Rust data
     let mut rust_values = 0u64;
     for _ in 0..n_rust {
